@@ -577,7 +577,9 @@ fn run_faulted(c: &SdCase, acc: &mut Acc, monitor: bool) -> Result<(), Failure> 
                 Fault::WrongToken { .. } => true,
                 Fault::RejectWrite { .. } => true,
                 Fault::WriteStatus { r1, status, .. } => (*r1 & 0x7F) != 0 || *status != 0,
-                Fault::SpiError { .. } => !spi_error_in_ignored_trailer(&card),
+                // "an SPI bus error yields an error": unconditionally, the trailing dummy byte of the
+                // identification sequence included
+                Fault::SpiError { .. } => true,
                 Fault::DeadFrom { .. } | Fault::BusyFrom { .. } | Fault::GarbageFrom { .. } | Fault::StuckFrom { .. } => false,
                 // only version 2 cards answer CMD8 with an echo; identification must give up
                 Fault::WrongCmd8Echo { .. } => true,
